@@ -22,6 +22,7 @@ import Bng.Model.HaSync
     release                  => ok                 (the held stream request goes through)
     cut                      => ok
     settle                   => <table>            (standby table once it stopped changing)
+    ghost open | ghost close => ok | already | none   (another stream client of the active on the same host)
     active                   => <table>
 -/
 namespace Bng.Drv.HaSyncDrv
@@ -33,6 +34,7 @@ structure St where
   e2e   : Bool := false
   up    : Bool := false      -- e2e: the harness asked for the link to be up
   gap   : Bool := false      -- e2e: full sync done, stream request held
+  ghost : Bool := false      -- e2e: another stream client of the active is connected
 
 def showT (t : Table) : String := showTable (sorted t)
 
@@ -204,6 +206,12 @@ def stepE2E (st : St) (m : HaSync.State) (toks : List String) (impl : String) : 
     let m' := drain 64 m
     finish st m' (showT m'.store) [.drained, match parseTable impl with | some l => .table l | none => .nop]
   | ["active"] => finish st m (showT m.table) []
+  -- another stream client of the active comes and goes: the standby's stream is unaffected (the model has one
+  -- standby; the other client's channel is not part of it)
+  | ["ghost", "open"] =>
+    if st.ghost then (st, { modelObs := "already" }) else ({ st with ghost := true }, { modelObs := "ok" })
+  | ["ghost", "close"] =>
+    if st.ghost then ({ st with ghost := false }, { modelObs := "ok" }) else (st, { modelObs := "none" })
   | _ => (st, { modelObs := "badop" })
 
 def step (st : St) (toks : List String) (impl : String) : St × LineResult :=
